@@ -639,4 +639,226 @@ theorem evalT2_refines {tt : TTable2} (hT : tt.WF) :
                 obtain ⟨t0, e0, rfl⟩ := prepend_eq_ok e
                 exact ((hi2 v' rfl).anti (subset_push st _)).append (hi t0 e0)
 
+/-! ## a static (syntactic) sufficient condition for key safety -/
+
+/-- syntactic: the evaluated output is separator-free, provided the table values it may splice in
+    are: literal text without separator; a placeholder without default may stay verbatim, so its
+    own text must be separator-free; with a default only the default counts -/
+def Tmpl2.SepFreeOut : Tmpl2 → Prop
+  | .done => True
+  | .lit t rest => Tok.sep ∉ t ∧ rest.SepFreeOut
+  | .ph key rest => Tok.sep ∉ render2 key ∧ rest.SepFreeOut
+  | .phd _ d rest => d.SepFreeOut ∧ rest.SepFreeOut
+
+/-- syntactic: every key sub-template (at any depth) has separator-free output -/
+def Tmpl2.KeysOK : Tmpl2 → Prop
+  | .done => True
+  | .lit _ rest => rest.KeysOK
+  | .ph key rest => key.SepFreeOut ∧ key.KeysOK ∧ rest.KeysOK
+  | .phd key d rest => key.SepFreeOut ∧ key.KeysOK ∧ d.KeysOK ∧ rest.KeysOK
+
+instance Tmpl2.decSepFreeOut : (t : Tmpl2) → Decidable t.SepFreeOut
+  | .done => isTrue trivial
+  | .lit t rest =>
+    have := Tmpl2.decSepFreeOut rest
+    inferInstanceAs (Decidable (Tok.sep ∉ t ∧ rest.SepFreeOut))
+  | .ph key rest =>
+    have := Tmpl2.decSepFreeOut rest
+    inferInstanceAs (Decidable (Tok.sep ∉ render2 key ∧ rest.SepFreeOut))
+  | .phd _ d rest =>
+    have := Tmpl2.decSepFreeOut d
+    have := Tmpl2.decSepFreeOut rest
+    inferInstanceAs (Decidable (d.SepFreeOut ∧ rest.SepFreeOut))
+
+instance Tmpl2.decKeysOK : (t : Tmpl2) → Decidable t.KeysOK
+  | .done => isTrue trivial
+  | .lit _ rest =>
+    have := Tmpl2.decKeysOK rest
+    inferInstanceAs (Decidable rest.KeysOK)
+  | .ph key rest =>
+    have := Tmpl2.decKeysOK key
+    have := Tmpl2.decKeysOK rest
+    inferInstanceAs (Decidable (key.SepFreeOut ∧ key.KeysOK ∧ rest.KeysOK))
+  | .phd key d rest =>
+    have := Tmpl2.decKeysOK key
+    have := Tmpl2.decKeysOK d
+    have := Tmpl2.decKeysOK rest
+    inferInstanceAs (Decidable (key.SepFreeOut ∧ key.KeysOK ∧ d.KeysOK ∧ rest.KeysOK))
+
+/-- the TABLE hypothesis: every value has separator-free output and safe keys -/
+def TTable2.KeySafe (tt : TTable2) : Prop := ∀ kv ∈ tt, kv.2.SepFreeOut ∧ kv.2.KeysOK
+
+instance (tt : TTable2) : Decidable tt.KeySafe := inferInstanceAs (Decidable (∀ kv ∈ tt, _))
+
+theorem TTable2.get_mem {tt : TTable2} {x : Toks} {v : Tmpl2} (h : tt.get x = some v) :
+    ∃ k, (k, v) ∈ tt := by
+  induction tt with
+  | nil => cases h
+  | cons kv r ih =>
+    obtain ⟨k, v'⟩ := kv
+    simp only [TTable2.get] at h
+    split at h
+    · cases h; exact ⟨k, List.mem_cons_self ..⟩
+    · obtain ⟨k', hk'⟩ := ih h
+      exact ⟨k', List.mem_cons_of_mem _ hk'⟩
+
+/-- outputs of `SepFreeOut` templates over a `KeySafe` table contain no separator -/
+theorem evalT2_sepFree {tt : TTable2} (hS : tt.KeySafe) :
+    ∀ (n : Nat) (t : Tmpl2) (st : List Toks) (out : Toks), t.SepFreeOut →
+      evalT2 tt n t st = .ok out → Tok.sep ∉ out := by
+  intro n
+  induction n with
+  | zero => intro t st out _ h; cases h
+  | succ n ih =>
+    intro t st out hs h
+    cases t with
+    | done => simp only [evalT2] at h; cases h; simp
+    | lit a rest =>
+      simp only [evalT2] at h
+      obtain ⟨t0, e0, rfl⟩ := prepend_eq_ok h
+      have := ih rest st t0 hs.2 e0
+      simp only [List.mem_append, not_or]; exact ⟨hs.1, this⟩
+    | ph key rest =>
+      simp only [evalT2] at h
+      by_cases hc : st.contains (render2 key) = true
+      · rw [if_pos hc] at h; cases h
+      · rw [if_neg hc] at h
+        cases e1 : evalT2 tt n key (st ++ [render2 key]) with
+        | outOfFuel => simp [e1] at h
+        | cycle o => simp [e1] at h
+        | ok k' =>
+          simp only [e1] at h
+          cases hg : tt.get k' with
+          | none =>
+            simp only [hg] at h
+            obtain ⟨t0, e0, rfl⟩ := prepend_eq_ok h
+            have := ih rest st t0 hs.2 e0
+            have e' : Tok.pre :: render2 key ++ [Tok.suf] ++ t0 =
+                [Tok.pre] ++ (render2 key ++ ([Tok.suf] ++ t0)) := by simp
+            rw [e']
+            intro hm
+            rcases List.mem_append.mp hm with h' | h'
+            · simp at h'
+            · rcases List.mem_append.mp h' with h' | h'
+              · exact hs.1 h'
+              · rcases List.mem_append.mp h' with h' | h'
+                · simp at h'
+                · exact this h'
+          | some v =>
+            simp only [hg] at h
+            obtain ⟨k, hk⟩ := TTable2.get_mem hg
+            cases e2 : evalT2 tt n v (st ++ [render2 key]) with
+            | outOfFuel => simp [e2] at h
+            | cycle o => simp [e2] at h
+            | ok v' =>
+              simp only [e2] at h
+              obtain ⟨t0, e0, rfl⟩ := prepend_eq_ok h
+              have h1 := ih v _ v' (hS _ hk).1 e2
+              have h2 := ih rest st t0 hs.2 e0
+              simp only [List.mem_append, not_or]; exact ⟨h1, h2⟩
+    | phd key d rest =>
+      simp only [evalT2] at h
+      by_cases hc : st.contains (rawD2 key d) = true
+      · rw [if_pos hc] at h; cases h
+      · rw [if_neg hc] at h
+        cases e1 : evalT2 tt n key (st ++ [rawD2 key d]) with
+        | outOfFuel => simp [e1] at h
+        | cycle o => simp [e1] at h
+        | ok k' =>
+          simp only [e1] at h
+          cases e3 : evalT2 tt n d (st ++ [rawD2 key d]) with
+          | outOfFuel => simp [e3] at h
+          | cycle o => simp [e3] at h
+          | ok d' =>
+            simp only [e3] at h
+            cases hg : tt.get k' with
+            | none =>
+              simp only [hg] at h
+              obtain ⟨t0, e0, rfl⟩ := prepend_eq_ok h
+              have h1 := ih d _ d' hs.1 e3
+              have h2 := ih rest st t0 hs.2 e0
+              simp only [List.mem_append, not_or]; exact ⟨h1, h2⟩
+            | some v =>
+              simp only [hg] at h
+              obtain ⟨k, hk⟩ := TTable2.get_mem hg
+              cases e2 : evalT2 tt n v (st ++ [rawD2 key d]) with
+              | outOfFuel => simp [e2] at h
+              | cycle o => simp [e2] at h
+              | ok v' =>
+                simp only [e2] at h
+                obtain ⟨t0, e0, rfl⟩ := prepend_eq_ok h
+                have h1 := ih v _ v' (hS _ hk).1 e2
+                have h2 := ih rest st t0 hs.2 e0
+                simp only [List.mem_append, not_or]; exact ⟨h1, h2⟩
+
+theorem contains_sep_of_not_mem {k' : Toks} (h : Tok.sep ∉ k') : (!k'.contains Tok.sep) = true := by
+  simpa using h
+
+/-- the static hypotheses imply key safety of EVERY run (all fuels, all stacks) -/
+theorem keySafe_of_static {tt : TTable2} (hS : tt.KeySafe) :
+    ∀ (n : Nat) (t : Tmpl2) (st : List Toks), t.KeysOK → keySafe tt n t st = true := by
+  intro n
+  induction n with
+  | zero => intro t st _; rfl
+  | succ n ih =>
+    intro t st hk
+    cases t with
+    | done => rfl
+    | lit a rest => simp only [keySafe]; exact ih rest st hk
+    | ph key rest =>
+      obtain ⟨hks, hkk, hkr⟩ := hk
+      simp only [keySafe]
+      by_cases hc : st.contains (render2 key) = true
+      · rw [if_pos hc]
+      · rw [if_neg hc, Bool.and_eq_true]
+        refine ⟨ih key _ hkk, ?_⟩
+        cases e1 : evalT2 tt n key (st ++ [render2 key]) with
+        | outOfFuel => rfl
+        | cycle o => rfl
+        | ok k' =>
+          simp only
+          rw [Bool.and_eq_true]
+          refine ⟨contains_sep_of_not_mem (evalT2_sepFree hS n key _ k' hks e1), ?_⟩
+          cases hg : tt.get k' with
+          | none => exact ih rest st hkr
+          | some v =>
+            obtain ⟨k, hkv⟩ := TTable2.get_mem hg
+            simp only
+            rw [Bool.and_eq_true]
+            refine ⟨ih v _ (hS _ hkv).2, ?_⟩
+            cases evalT2 tt n v (st ++ [render2 key]) with
+            | outOfFuel => rfl
+            | cycle o => rfl
+            | ok v' => exact ih rest st hkr
+    | phd key d rest =>
+      obtain ⟨hks, hkk, hkd, hkr⟩ := hk
+      simp only [keySafe]
+      by_cases hc : st.contains (rawD2 key d) = true
+      · rw [if_pos hc]
+      · rw [if_neg hc, Bool.and_eq_true]
+        refine ⟨ih key _ hkk, ?_⟩
+        cases e1 : evalT2 tt n key (st ++ [rawD2 key d]) with
+        | outOfFuel => rfl
+        | cycle o => rfl
+        | ok k' =>
+          simp only
+          rw [Bool.and_eq_true, Bool.and_eq_true]
+          refine ⟨⟨contains_sep_of_not_mem (evalT2_sepFree hS n key _ k' hks e1), ih d _ hkd⟩, ?_⟩
+          cases evalT2 tt n d (st ++ [rawD2 key d]) with
+          | outOfFuel => rfl
+          | cycle o => rfl
+          | ok d' =>
+            simp only
+            cases hg : tt.get k' with
+            | none => exact ih rest st hkr
+            | some v =>
+              obtain ⟨k, hkv⟩ := TTable2.get_mem hg
+              simp only
+              rw [Bool.and_eq_true]
+              refine ⟨ih v _ (hS _ hkv).2, ?_⟩
+              cases evalT2 tt n v (st ++ [rawD2 key d]) with
+              | outOfFuel => rfl
+              | cycle o => rfl
+              | ok v' => exact ih rest st hkr
+
 end Ytk.Resolver
